@@ -126,10 +126,31 @@ def nfc_comparison() -> st.SearchStrategy:
     )
 
 
+def nfc_assembled_comparison() -> st.SearchStrategy:
+    """The same comparisons with one or both sides *assembled* by `+` from pieces cut at an arbitrary position - also inside a
+    combining sequence / between Hangul jamo, where the pieces' own normal forms do not add up to the normal form of the whole."""
+
+    def cut(node: typing.Any, k: int) -> typing.Any:
+        text, style = node[1], node[2]
+        i = k % (len(text) + 1)
+        return ["bin", "+", ["str", text[:i], style], ["str", text[i:], style + 3]]
+
+    def build(t: typing.Any) -> typing.Any:
+        cmp_, ka, kb, which = t
+        left, right = cmp_[2], cmp_[3]
+        if which in (0, 2):
+            left = cut(left, ka)
+        if which in (1, 2):
+            right = cut(right, kb)
+        return ["bin", cmp_[1], left, right]
+
+    return st.tuples(nfc_comparison(), st.integers(0, 12), st.integers(0, 12), st.integers(0, 2)).map(build)
+
+
 def boolean(depth: int) -> st.SearchStrategy:
     lit = bool_literal()
     if depth <= 0:
-        return st.one_of(lit, lit, lit, nfc_comparison())
+        return st.one_of(lit, lit, lit, nfc_comparison(), nfc_assembled_comparison())
     sub = st.deferred(lambda: boolean(depth - 1))
     r = st.deferred(lambda: rat(depth - 1))
     s = st.deferred(lambda: string(depth - 1))
